@@ -133,8 +133,9 @@ impl Workload for C19 {
 
 pub struct C20 { texts: Vec<String>, n_rand: u64, seed: u64 }
 
-const CONTEXTS: [&str; 12] = ["alone", "complex argument", "second complex argument", "built-in argument", "list element", "list element (parse_linked_list)",
-                              "left of =", "right of =", "left of ==", "left of arithmetic infix", "right of arithmetic infix", "query argument"];
+const CONTEXTS: [&str; 15] = ["alone", "complex argument", "second complex argument", "built-in argument", "list element", "list element (parse_linked_list)",
+                              "left of =", "right of =", "left of ==", "left of arithmetic infix", "right of arithmetic infix", "query argument",
+                              "argument after a float argument", "argument after an atom with a period", "list element after a float"];
 
 /// Parse `s` in context k and extract the term at the position where `s` was written.
 fn parse_in_context(k: usize, s: &str) -> Result<Result<Unifiable, String>, Panic> {
@@ -163,7 +164,10 @@ fn parse_in_context(k: usize, s: &str) -> Result<Result<Unifiable, String>, Pani
         8 => parse_subgoal(&format!("{} == a", s)).and_then(|g| bip_arg(g, 0)),
         9 => parse_term(&format!("{} + 1", s)).and_then(|u| fn_arg(u, 0)),
         10 => parse_term(&format!("1 + {}", s)).and_then(|u| fn_arg(u, 1)),
-        _ => parse_query(&format!("q({})", s)).and_then(|g| match g { Goal::ComplexGoal(u) => arg(u, 1), other => Err(format!("unexpected goal {:?}", other)) }),
+        11 => parse_query(&format!("q({})", s)).and_then(|g| match g { Goal::ComplexGoal(u) => arg(u, 1), other => Err(format!("unexpected goal {:?}", other)) }),
+        12 => parse_complex(&format!("f(2.5, {})", s)).and_then(|u| arg(u, 2)),
+        13 => parse_complex(&format!("f(St. John, {})", s)).and_then(|u| arg(u, 2)),
+        _ => parse_term(&format!("[2.5, {}]", s)).and_then(|u| match u { Unifiable::SLinkedList { next, .. } => elem(*next), other => Err(format!("unexpected shape {:?}", other)) }),
     })
 }
 
@@ -195,7 +199,7 @@ impl C20 {
 impl Workload for C20 {
     fn total(&self) -> u64 { self.texts.len() as u64 + self.n_rand }
     fn rule(&self) -> String {
-        format!("{} enumerated term texts (all canonical terms up to 3-4 nodes plus signed numbers, numeric look-alikes and punctuation atoms), then {} random term texts and sign/punctuation tokens; each text is parsed in {} contexts (alone, 1st/2nd argument of a complex term, built-in argument, list element via parse_term and parse_linked_list, either side of =, left of ==, either operand of an arithmetic infix, query argument); oracle: equal terms (variable ids erased) in every context, or rejected in every context; contexts whose surrounding syntax cannot hold the text (a top-level comma or infix inside it) are not generated; non-trivial when the text is not a plain alphabetic atom; distinct by text",
+        format!("{} enumerated term texts (all canonical terms up to 3-4 nodes plus signed numbers, numeric look-alikes and punctuation atoms), then {} random term texts and sign/punctuation tokens; each text is parsed in {} contexts (alone, 1st/2nd argument of a complex term, built-in argument, list element via parse_term and parse_linked_list, either side of =, left of ==, either operand of an arithmetic infix, query argument, argument after a float / after an atom containing a period, list element after a float); oracle: equal terms (variable ids erased) in every context, or rejected in every context; contexts whose surrounding syntax cannot hold the text (a top-level comma or infix inside it) are not generated; non-trivial when the text is not a plain alphabetic atom; distinct by text",
                 self.texts.len(), self.n_rand, CONTEXTS.len())
     }
     fn exhaustive_part(&self) -> Option<String> { Some(format!("all {} enumerated texts x {} contexts", self.texts.len(), CONTEXTS.len())) }
@@ -299,8 +303,10 @@ impl C21 {
                 }
                 i += 1;
             }
-            if r.chance(1, 6) { line.push_str("   "); line.push_str(&comment(r)); fancy = true; }
-            out.push_str(&line); out.push('\n');
+            if r.chance(1, 6) { line.push_str("   "); line.push_str(&comment(r)); fancy = true; out.push_str(&line); out.push('\n'); }
+            // several rules on one line (only when no comment follows, which would swallow the next rule)
+            else if r.chance(1, 5) { out.push_str(&line); out.push_str([" ", "  ", ""][r.below(3)]); fancy = true; }
+            else { out.push_str(&line); out.push('\n'); }
             if r.chance(1, 5) { out.push('\n'); fancy = true; }
         }
         (out, fancy)
@@ -310,7 +316,7 @@ impl C21 {
 impl Workload for C21 {
     fn total(&self) -> u64 { self.n }
     fn rule(&self) -> String {
-        format!("{} generated programs of 1-6 rules from the canonical grammar (float literals and infix operators in bodies included) whose rules parse_rule accepts; K1 = parse_rule per rule + add_rules; K2 = load_kb_from_file on a random legal rendering (line breaks after `:-` `,` `;` `=` at goal level and inside argument lists, indentation, blank lines, full-line and end-of-line `#` `%` `//` comments outside parentheses and brackets); oracle: the file loads, format_kb(K2) == format_kb(K1) and the Debug form of every predicate's rule vector is equal; non-trivial when the rendering differs from one rule per line; distinct by file text", self.n)
+        format!("{} generated programs of 1-6 rules from the canonical grammar (float literals and infix operators in bodies included) whose rules parse_rule accepts; K1 = parse_rule per rule + add_rules; K2 = load_kb_from_file on a random legal rendering (line breaks after `:-` `,` `;` `=` at goal level and inside argument lists, indentation, blank lines, several rules on one line, full-line and end-of-line `#` `%` `//` comments outside parentheses and brackets), in every third case into a knowledge base that already holds rules; oracle: the file loads, format_kb(K2) == format_kb(K1) and the Debug form of every predicate's rule vector is equal; non-trivial when the rendering differs from one rule per line; distinct by file text", self.n)
     }
     fn describe(&mut self, idx: u64) -> String {
         let mut r = Rng::for_case(self.seed, 21, idx);
@@ -325,8 +331,20 @@ impl Workload for C21 {
         let mut out = Outcome::new(hash_str(&text));
         out.nontrivial = fancy;
         out.sample = json::obj(&[("rules", json::strs(&rules)), ("file", json::esc(&text))]);
+        // In every third case the knowledge base is not empty when the file is loaded: some rules of
+        // the same program (possibly of the same predicates) were added to it beforehand.
+        let mut pre: Vec<String> = vec![];
+        if idx % 3 == 0 { let mut r2 = Rng::for_case(self.seed, 212, idx); let n = r2.range(1, 3); for _ in 0..n { pre.push(src_clause(&rand_clause(&mut r2, 1), true)); } if r2.chance(1, 2) { pre.push(rules[0].clone()); } }
         // K1
         let mut k1 = KnowledgeBase::new();
+        let mut k2 = KnowledgeBase::new();
+        for s in pre.iter() {
+            match guarded(|| parse_rule(s)) {
+                Ok(Ok(rule)) => { add_rules(&mut k1, vec![rule.clone()]); add_rules(&mut k2, vec![rule]); }
+                _ => { out.evals = 0; out.verdict = Verdict::Skipped("a rule is not accepted by parse_rule (C19's subject)"); return out; }
+            }
+        }
+        if !pre.is_empty() { out.count("loaded_into_a_non_empty_knowledge_base", 1); }
         for s in &rules {
             match guarded(|| parse_rule(s)) {
                 Ok(Ok(rule)) => add_rules(&mut k1, vec![rule]),
@@ -335,7 +353,6 @@ impl Workload for C21 {
         }
         let path = format!("{}/{}.txt", self.dir, idx);
         if std::fs::write(&path, &text).is_err() { out.verdict = Verdict::Inconclusive("cannot write the source file".into()); return out; }
-        let mut k2 = KnowledgeBase::new();
         let res = guarded(|| load_kb_from_file(&mut k2, &path));
         std::fs::remove_file(&path).ok();
         let wit = |kind: &str, d: &str| json::obj(&[("kind", json::esc(kind)), ("rules", json::strs(&rules)), ("file", json::esc(&text)), ("detail", json::esc(d))]);
